@@ -259,6 +259,10 @@ OtherProgs ==
      prog |-> <<Disp("d0"), TrapCmd("USR1", <<Probe("T")>>), Probe("s1"), Disp("d1"), Kill("USR1"), Probe("a"),
                TrapDfl("USR1"), Probe("s2"), Disp("d2"), Kill("USR1"), Probe("b"),
                Sub(<<TrapCmd("USR1", <<Probe("C")>>), Disp("c1"), Kill("USR1"), Probe("c")>>), Probe("e")>>],
+    [fam |-> "ignored-on-entry-after-listing", init |-> Usr1Ignored,
+     prog |-> <<TrapPrint("USR1"), TrapCmd("USR1", <<Probe("T")>>), Disp("d1"), Kill("USR1"), Probe("a"),
+               TrapDfl("USR1"), Disp("d2"), Kill("USR1"), Probe("b"),
+               Sub(<<TrapPrint("USR1"), TrapCmd("USR1", <<Probe("C")>>), Disp("c1"), Kill("USR1"), Probe("c")>>), Probe("e")>>],
     [fam |-> "async-ignores-int-quit", init |-> AllDefault,
      prog |-> <<TrapCmd("USR1", <<Probe("T")>>), Disp("m1"), Async(<<Disp("c1")>>), Disp("m2")>>],
     [fam |-> "async-child-traps-int", init |-> AllDefault,
